@@ -240,6 +240,12 @@ def reduceOp (c : Ctx) (x : Dec) : Out :=
 
 /-! ## Quantize and friends -/
 
+/-- the largest adjusted exponent of `quantize`'s shifted frame: `c.MaxExponent - exp`, kept within the
+package limits -/
+def frameEmax (emax exp : Int) : Int :=
+  let m := emax - exp
+  if m > MaxExponent then MaxExponent else if m < MinExponent then MinExponent else m
+
 /-- `Context.quantize(d, v, exp)` on a fresh destination: result and flags -/
 def quantizeCore (c : Ctx) (v : Dec) (exp : Int) : Dec × Cond :=
   let diff := exp - v.exp
@@ -254,7 +260,7 @@ def quantizeCore (c : Ctx) (v : Dec) (exp : Int) : Dec × Cond :=
         ({ v with coeff := if one then 1 else 0, exp := exp }, cInexact ||| cRounded)
       else ({ v with exp := exp }, {})
     else
-      let nc : Ctx := { c with prec := p.toNat, emin := MinExponent }
+      let nc : Ctx := { c with prec := p.toNat, emin := MinExponent, emax := frameEmax c.emax exp }
       let r := roundX nc { v with exp := -diff } false
       let d := r.1
       let d := if d.exp > 0 then { d with coeff := d.coeff * 10 } else d
